@@ -84,17 +84,17 @@ def random_system(rnd):
             h = h + wi * num(d, k, n) + (ai * num(d, k, n) ** 2 if k in 'bl' else 0)
         if cross and len(spec) >= 2: h = h + cross * num(d, *spec[0]) * num(d, *spec[1])
         return h
-    def Vf(d):
+    def Vf(d, hermitian_V=True):
         W = 0
         for coef, word in mons:
             t = coef
             for (m, cr) in word: t = t * (Dagger(d[spec[m][1]]) if cr else d[spec[m][1]])
             W = W + t
-        return W + Dagger(W)
+        return W + (Dagger(W) if hermitian_V else Q(1, 2) * Dagger(W))       # (W + W^dagger/2 is not Hermitian)
     label = "generated: " + "".join(kinds) + " " + "; ".join(f"{c}*" + ".".join((spec[m][1] + ("+" if cr else "")) for m, cr in wd) for c, wd in mons) + f" | w={w} anh={al} cross={cross}"
     return label, spec, H0f, Vf
 
-def run(label, spec, H0f, Vf, maxn, cut, patterns=None):
+def run(label, spec, H0f, Vf, maxn, cut, patterns=None, hermitian=True):
     """`patterns`: operator-valued elimination mask of a scalar Hamiltonian, as a set of shift patterns (one integer per mode, closed under
     negation); only the terms with these shifts are eliminated, all other off-diagonal terms are kept"""
     spec0 = list(spec)
@@ -117,8 +117,9 @@ def run(label, spec, H0f, Vf, maxn, cut, patterns=None):
                 if e < 0: t = t * o ** (-e)
             return t
         kw["fully_diagonalize"] = sympy.Matrix([[sympy.Add(*[word(p) for p in sorted(patterns)])]])
+    if not hermitian: kw["hermitian"] = False
     Ht, U, Ud = block_diagonalize(H0 + lam * V, symbols=[lam], **kw)
-    outs = {n: (Ht[0, 0, n], U[0, 0, n]) for n in range(1, maxn + 1)}
+    outs = {n: (Ht[0, 0, n], U[0, 0, n], Ud[0, 0, n]) for n in range(1, maxn + 1)}
     dim = H0.rows if isinstance(H0, sympy.MatrixBase) else 1
     # an element between low states (|n| <= 2) at order <= 3 with steps of at most 3 quanta passes through |n| <= 5 only
     ranges = [range(0, cut) if m[0] == 'b' else (range(-max(cut // 2, 6), max(cut // 2, 6) + 1) if m[0] == 'l' else range(0, 2)) for m in spec]
@@ -153,14 +154,15 @@ def run(label, spec, H0f, Vf, maxn, cut, patterns=None):
     low = [i for i, s in enumerate(states_all) if all(abs(x) <= 2 for x in s)]
     res = []
     for n in range(1, maxn + 1):
-        h, u = outs[n]
-        hm = mat(h); um = mat(u)
-        res.append((n, float(np.abs(hm - rHt[(n,)])[np.ix_(low, low)].max()), float(np.abs(um - rU[(n,)])[np.ix_(low, low)].max()), len(low)))
+        h, u, ui = outs[n]
+        hm = mat(h); um = mat(u); uim = mat(ui)
+        eu = max(float(np.abs(um - rU[(n,)])[np.ix_(low, low)].max()), float(np.abs(uim - rUi[(n,)])[np.ix_(low, low)].max()))      # U and its inverse (adjoint)
+        res.append((n, float(np.abs(hm - rHt[(n,)])[np.ix_(low, low)].max()), eu, len(low)))
     return res
 
-def main(seed, ncases, driver, out):
+def main(seed, ncases, driver, out, mode="all"):
     failures = []; dist = {}; samples = []; evals = 0; distinct = 0; worst = 0.0
-    for c in range(ncases):
+    for c in (range(ncases) if mode == "all" else range(len(SYSTEMS), len(SYSTEMS) + ncases)):
         if skip(c): continue
         if c < len(SYSTEMS): label, spec, H0f, Vf = SYSTEMS[c]; cut = 8
         else:
@@ -168,7 +170,7 @@ def main(seed, ncases, driver, out):
         dist[label.split(" ")[0] + " " + "".join(k for k, _ in spec)] = dist.get(label.split(" ")[0] + " " + "".join(k for k, _ in spec), 0) + 1
         if len(samples) < 12: samples.append({"system": label, "modes": spec})
         patterns = None
-        if c >= len(SYSTEMS) and c % 3 == 2:
+        if c >= len(SYSTEMS) and c % 3 == 2 and mode == "all":
             # selective elimination with an operator-valued mask: a random symmetric set of shift patterns
             prnd = case_rnd(seed, 10**6 + c); patterns = set()
             for _ in range(prnd.randint(1, 3)):
@@ -179,8 +181,14 @@ def main(seed, ncases, driver, out):
                 dist["with a symbolic-power mask"] = dist.get("with a symbolic-power mask", 0) + 1
             elif not patterns: patterns = None
             else: label += " | mask " + str(sorted(patterns)); dist["with an operator-valued mask"] = dist.get("with an operator-valued mask", 0) + 1
+        herm = True
+        if c >= len(SYSTEMS) and (c % 3 == 1 or mode == "nh"):
+            # the non-Hermitian algorithm on second-quantised input: a non-Hermitian perturbation, or a Hermitian one (same answer as the Hermitian mode)
+            herm = False; Vh = Vf
+            if c % 2 == 0: Vf = (lambda d, Vh=Vh: Vh(d, False)); label += " | non-Hermitian perturbation W + W^dagger/2"
+            label += " | hermitian=False"; dist["hermitian=False"] = dist.get("hermitian=False", 0) + 1
         try:
-            res = run(label, spec, H0f, Vf, 3, cut, patterns)
+            res = run(label, spec, H0f, Vf, 3, cut, patterns, herm)
             if res is None: dist["skipped: degenerate Fock levels"] = dist.get("skipped: degenerate Fock levels", 0) + 1; continue
             for (n, eh, eu, nlow) in res:
                 evals += 2 * nlow * nlow; worst = max(worst, eh, eu)
@@ -192,4 +200,4 @@ def main(seed, ncases, driver, out):
                "samples": samples, "worst_abs_error": worst}, open(out, "w"))
 
 if __name__ == "__main__":
-    main(int(sys.argv[1]), int(sys.argv[2]), sys.argv[3], sys.argv[4])
+    main(int(sys.argv[1]), int(sys.argv[2]), sys.argv[3], sys.argv[4], *sys.argv[5:6])
